@@ -127,6 +127,9 @@ BENIGN = [
 def run_benign():
     import shutil
     checks = ["C%02d" % i for i in range(1, 21)]
+    for a in sys.argv[1:]:
+        if a.startswith("--props="):
+            checks = a.split("=", 1)[1].split(",")
     sel = [a for a in sys.argv[1:] if not a.startswith("--")]
     bad = 0
     for name, edits in BENIGN:
